@@ -80,6 +80,16 @@ CHECKS = {
         design_ref="DESIGN.md 7/C10",
         note="failover off; every mysync alive; E4/E5; stale-master clause judged on what was seen on the way",
         technique="initial-state grid + fault injection on real code over fakes; TLC validation of end states and safety logs"),
+    "C11": dict(
+        category="model_checking",
+        text="Switchover.tla (SetRecovery: list shrink first, then mark; C11_MarkedNotListed) is model-checked; the real "
+             "checkRecovery of a marked ex-master and the real manager run interleaved on the fakes over GTID relation x "
+             "replication state x read-only x stuck commits x resetup file x interleaving order (incl. a further "
+             "switchover); every mark removal is recorded with ground truth at that instant, every list write / promotion "
+             "while marked, the end state and three marking scenarios; TLC judges them with RecoveryRows.tla.",
+        design_ref="DESIGN.md 7/C11",
+        note="E2/E4; stuck-commit waiting time not exceeded in these runs",
+        technique="TLA+ model (TLC) + TLC validation of recovery-protocol events recorded from real code on fakes"),
     "C12": dict(
         category="model_checking",
         text="Closed form proved for all n,w with TLAPS on Quorum.tla; TLC checks the clauses exhaustively for "
